@@ -49,12 +49,14 @@ def run(ctx):
     ctx.cov = dict(
         evaluations=st["rt_evaluations"] + st["vec_decodes"],
         distinct_nontrivial=len(seen),
-        rule="one evaluation = Unmarshal(Marshal(v)) into one target kind compared with the value the specification expects there "
+        rule="one evaluation = Unmarshal(Marshal(v)) into one target kind (each run three times: fresh destination, destination pre-filled "
+             "with other content of the same type, long-lived destination reused across cases) compared with the value the specification expects there "
              "(targets = documented kinds that can represent v, incl. the source's own kind, *T, **T, named kinds); cases = (CQL type, "
              "protocol, source Go kind, boundary value) enumerated by Gen_Cql.tla; a case is non-trivial when the pair is documented, "
              "Marshal produced a value and at least one target was decoded and compared; distinct by (type, protocol, kind, value)",
         cases=len(cases), cases_unclaimed=st["unclaimed"], marshal_ok=st["marshal_ok"], marshal_refused=st["marshal_refused"],
         round_trips_equal=st["rt_equal"], decode_errors_allowed=st["rt_err_allowed"],
+        round_trips_into_prefilled_or_reused_destination_identical_to_fresh=st["rt_same_as_fresh"],
         random_vectors=len(verdicts), random_vectors_claimed=st["vec_claimed"], random_vector_round_trips=st["vec_decodes"],
         samples=[dict(c12.sample_of(c, results[c["id"]]),
                       round_trip=[dict(target=c12.kshape(t["K"]), got=results[c["id"]]["decs"][i].get("real", {}).get("st"))
